@@ -281,6 +281,39 @@ def run(ctx):
     ctx.count("walk_model_cases", len(walk))
     ctx.correspond("walk_model", walk, nontrivial=nt)
 
+    # unknown fields are skipped in their entirety, whatever their payload bytes look like: wide payloads (i64, u64,
+    # f64, long strings, rgb) whose inner 16-bit words equal structural / type ids, inside a skipped container
+    ID = lambda x: struct.pack("<H", x)
+    words = [0x0003, 0x0004, 0x0001, 0x000c, 0x000f, 0x0017, 0x0014, 0x029c, 0x0317, 0x0167, 0x0243, 0x000e, 0x000d, 0xffff, 0x0000]
+    pcases, pmeta = [], []
+    known = D.bstr(b"known", False) + D.EQ + D.tok(0x0c) + struct.pack("<i", 1)
+    for _ in range(ctx.scale(120, 1200)):
+        w = [rng.choice(words) for _ in range(4)]
+        payload8 = b"".join(ID(x) for x in w)
+        kind = rng.choice(["i64", "u64", "f64", "str", "f32", "u32"])
+        if kind in ("i64", "u64", "f64"):
+            val = D.tok({"i64": 0x317, "u64": 0x29c, "f64": 0x167}[kind]) + payload8
+        elif kind in ("f32", "u32"):
+            val = D.tok({"f32": 0x0d, "u32": 0x14}[kind]) + payload8[:4]
+        else:
+            val = D.tok(0x0f) + ID(8) + payload8
+        inner = rng.choice([val + D.EQ + D.tok(0x0c) + struct.pack("<i", 99),                      # wide token as a key
+                            D.tok(0x2d84) + D.EQ + val,                                             # as a value
+                            val + val,                                                              # array elements
+                            D.tok(0x2d85) + D.EQ + D.OPEN + val + D.CLOSE])                         # nested
+        body = D.bstr(b"unknown", False) + D.EQ + D.OPEN + inner + D.CLOSE + known
+        exp = "(struct (%s (i 1)))" % hx("known")
+        for path in ("tape", "slice", "reader:64:-", "reader:16:1*", "reader:23:3*"):
+            pcases.append("\t".join(["de.bin", path, "ignore", "map:", "raw", "struct(%s:i32)" % hx("known"), hx(body)])); pmeta.append((path, body, exp))
+    impl, _ = ctx.correspond("skip_wide_payloads", pcases, nontrivial=nt, model=False)
+    base = len(impl) - len(pcases)
+    walk2 = to_model(pcases)
+    ctx.correspond("walk_model_wide", walk2, nontrivial=nt)
+    for k, (path, body, exp) in enumerate(pmeta):
+        o = impl[base + k]
+        if o != exp and not (path.startswith("reader:16") and o.startswith("ERR")):
+            ctx.fail("skip-wide-" + path.split(":")[0], "%s path on a document whose skipped container holds wide payloads returns %s, expected %s (bytes %s)" % (path, o[:120], exp, body.hex()), [pcases[k]], [o], exp)
+
     # scalar level: extracted Serde.bin_scalar against the real on-demand path
     from props import descalar
     ctx.correspond("scalar-tokens", descalar.bin_cases(ctx, ctx.scale(150, 1500)), nontrivial=nt)
